@@ -438,6 +438,7 @@ RARE_LINES = [
     ("f3 0f 1e fa", "endbr64", ""),
     ("c3", "ret", ""),
     ("c9", "leave", ""),
+    ("66", "data16", ""),
 ]
 
 
@@ -447,7 +448,7 @@ def rare_shape_battery(run, prop):
     mnemonic come out, operands are the reference normal form, no field contains a stream separator, nothing raises."""
     for i, (raw, m, ops) in enumerate(RARE_LINES):
         a = format(0x401000 + 8 * i, "x")
-        for pad in (("", "   ") if not ops else ("",)):
+        for pad in (("", "   ") if not ops and m != "data16" else ("",)):
             line = f"  {a}:\t{raw:<21}\t{(m + ' ').ljust(7) + ops if ops else m + pad}"
             got = real_parse(line)
             want_ops = [reference_normal_form(o) for o in split_top_level(ops)] if ops else []
@@ -686,6 +687,13 @@ def c10_extra(ctx):
         run.count("traces_validated_against_impl")
         if got != "":
             run.failure("record_format/empty_list", f"a listing without instructions ({nm}) gives the stream {got!r} instead of the empty string", {"kind": "lx_stream", "text": got})
+    # two different instruction lists never produce the same stream: the list is that of the file as it is NOW
+    l1 = "    1000:\t48 89 c3             \tmov    %rax,%rbx\n    1003:\tc3                   \tret\n"
+    l2 = "    1000:\t48 31 c3             \txor    %rax,%rbx\n    1003:\tc3                   \tret\n"
+    (a1, s1), (a2, s2) = jasmapi.rewritten_input_results({"pattern": ["ret"]}, l1, l2)
+    run.count("traces_validated_against_impl")
+    if s1 != "1000::mov,%rax,%rbx,|1003::ret,,|" or s2 != "1000::xor,%rax,%rbx,|1003::ret,,|":
+        run.failure("record_format/input_rewritten", f"file rewritten in place (same size, same mtime) between two runs: streams {s1!r} then {s2!r}", {"kind": "lx_stream", "text": s2})
     long_listing_parser_probe(run)
     hs += [h for h in c09.harnesses(tier()) if any(x in h.name for x in ("/mem4/", "/mem3/", "/mem1/", "/mem0/", "/pair", "/mem4_nobase/", "/mem3_suffix/", "/mem0_suffix/"))]
     ch.run_harnesses(run, hs)
